@@ -43,6 +43,8 @@ pub const CT_COOKIE_ECHO: u8 = 10;
 pub const CT_COOKIE_ACK: u8 = 11;
 pub const CT_RECONFIG: u8 = 130;
 pub const CT_FORWARD_TSN: u8 = 192;
+/// fault addressing only: a SACK that carries at least one gap-ack block
+pub const CT_GAP_SACK: u8 = 253;
 
 /// CRC-32C (Castagnoli), bitwise-table implementation, reflected polynomial 0x82F63B78.
 pub fn crc32c(data: &[u8]) -> u32 {
@@ -241,6 +243,7 @@ pub fn ctype_of(name: &str) -> u8 {
         "CACK" => CT_COOKIE_ACK,
         "RECONFIG" => CT_RECONFIG,
         "FWD" => CT_FORWARD_TSN,
+        "GSACK" => CT_GAP_SACK,
         other => other.parse::<u8>().unwrap_or_else(|_| panic!("bad chunk type {other}")),
     }
 }
@@ -258,7 +261,12 @@ pub fn fault_from_json(v: &Value) -> Fault {
         Some("NONE") | None => None,
         Some(k) => {
             let t = ctype_of(k);
-            let rel = if t == CT_DATA { v.get("at").and_then(|x| x.as_u64()).map(|x| x as u32) } else { None };
+            // DATA: relative TSN; SACK: number of chunks it acknowledges cumulatively (0 = unknown)
+            let rel = if t == CT_DATA || t == CT_SACK {
+                v.get("at").and_then(|x| x.as_u64()).map(|x| x as u32).filter(|x| t == CT_DATA || *x > 0)
+            } else {
+                None
+            };
             Some((t, v["ao"].as_u64().unwrap_or(0) as u32, rel))
         }
     };
@@ -400,6 +408,9 @@ impl Proxy {
         };
         let pv = parse_sctp(&pt);
         let mut types: Vec<u8> = pv.chunks.iter().map(|c| c.ctype).collect();
+        if pv.chunks.iter().any(|c| c.ctype == CT_SACK && !c.gaps.is_empty()) {
+            types.push(CT_GAP_SACK);
+        }
         types.sort();
         types.dedup();
         // decide under the lock, act after releasing it
@@ -435,9 +446,16 @@ impl Proxy {
                     }
                 }
             }
+            // cumulative acknowledgement carried by a SACK of this packet, as a count of the peer's chunks
+            let other = if dir == 'A' { 'B' } else { 'A' };
+            let acked: Option<u32> = st.itsn.get(&other).copied().and_then(|b| {
+                pv.chunks.iter().filter(|c| c.ctype == CT_SACK).filter_map(|c| c.cum).map(|c| c.wrapping_sub(b).wrapping_add(1)).next()
+            });
             let hits = |ctype: u8, ord: u32, rel: Option<u32>, st: &ProxyState| -> bool {
                 match (ctype, rel) {
                     (CT_DATA, Some(r)) => rels.iter().any(|(x, n)| *x == r && *n == ord),
+                    // a SACK that acknowledges at least `r` chunks (release points only)
+                    (CT_SACK, Some(r)) => acked.map(|a| (a.wrapping_sub(r) as i32) >= 0 && a < 0x8000_0000).unwrap_or(false),
                     _ => types.contains(&ctype) && st.cnt[&(dir, ctype)] == ord,
                 }
             };
